@@ -108,7 +108,9 @@ PRED = {
 }
 # one continuation value for each truth assignment of (even, mod3, lt6)
 CONT_VALUES = [1002, 1008, 1000, 1010, 1005, 1011, 1001, 1007]
-CONTS = [[]] + [[c] for c in CONT_VALUES] + [CONT_VALUES, CONT_VALUES[::-1] + CONT_VALUES]
+# need is computed per element (see need_table), where only the number of
+# following values (none, one, many) and the class of the next value matter
+CONTS = [[], [1002], [1007], CONT_VALUES, CONT_VALUES[::-1]]
 
 
 def build_el(r, log):
@@ -190,14 +192,14 @@ def need_table(els, xs, points):
     real = [plain(r) for r in stream(els, xs)]
     tables = []
     for i, r in enumerate(els):
-        s_len = len(stream(els[:i], xs))
-        out_i = [plain(x) for x in stream(els[:i + 1], xs)]
-        pts = points if i == 0 else list(range(s_len + 1))
+        base = stream(els[:i], xs)
+        out_i = [plain(x) for x in build([r], []).run(iter(copy.deepcopy(base)))]
+        pts = points if i == 0 else list(range(len(base) + 1))
         outs = {}
         for m in pts:
             outs[m] = []
             for c in CONTS:
-                inp = stream(els[:i], xs)[:m] + [mkval(v) for v in c]
+                inp = copy.deepcopy(base[:m]) + [mkval(v) for v in c]
                 outs[m].append([plain(x) for x in build([r], []).run(iter(inp))])
         N = {0: 0}
         for j in range(1, len(out_i) + 1):
@@ -220,7 +222,7 @@ def need_table(els, xs, points):
 
 # ---- strategies -------------------------------------------------------------
 
-preds = st.sampled_from(["even", "mod3", "lt6", "all", "none"])
+preds = st.sampled_from(["even", "mod3", "lt6", "all", "even", "mod3", "lt6", "all", "none"])
 simple_el = st.one_of(
     st.builds(lambda f: ["map", f], st.sampled_from(["id", "wrap", "ctx_k", "ctx_mut"])),
     st.builds(lambda n: ["var", n], st.sampled_from(["v1", "v2"])),
@@ -239,8 +241,8 @@ def slice_el(neg=True):
 
 
 stream_el = st.one_of(
-    simple_el, simple_el,
-    slice_el(), slice_el(),
+    simple_el, simple_el, simple_el,
+    slice_el(),
     st.builds(lambda n: ["count", n], st.sampled_from(["count", "n2"])),
     st.builds(lambda p, xs: ["runif", p, xs], preds, st.lists(simple_el, max_size=2)),
     st.just(["print"]), st.just(["context"]),
@@ -260,9 +262,9 @@ def pipeline_case(draw):
     els = draw(st.lists(stream_el, min_size=1, max_size=5))
     if kind == "split_first":
         els = [draw(split_el)] + els[:3]
-    n = draw(st.integers(0, 20))
+    n = draw(st.sampled_from(list(range(8, 21)) * 2 + list(range(4, 8)) * 2 + [3, 2, 1, 0]))
     return {"els": els, "n": n, "driver": draw(st.sampled_from(["sequence", "source"])),
-            "stop_after": draw(st.integers(0, 22))}
+            "stop_after": draw(st.sampled_from([99, 99, 3, 1, 1, 2, 2, 0, 4, 5, 7, 9, 12]))}
 
 
 def _run(case, src, log):
@@ -279,7 +281,7 @@ def _run(case, src, log):
 def check_idle(log, src, when, case):
     if log or src.pulls:
         raise Violation("work-before-demand:%s" % when,
-                        "events %s after %s of %s" % (short(log[:5]), when, short(case["els"])))
+                        "events %s after %s of %s" % (short(log[:5]), when, short(case.get("els", case))))
 
 
 def judge_pipeline(case):
@@ -348,10 +350,12 @@ inf_simple = st.one_of(
 def inf_slice():
     a = st.one_of(st.none(), st.integers(0, 4))
     b = st.one_of(st.none(), st.integers(-3, -1))
+    # no steps > 1 here: a stepping slice followed by a parity filter can
+    # leave an infinite flow without any result, which rightly never ends
     return st.one_of(
         st.builds(lambda x, y: ["slice", x, y], a, b),
-        st.builds(lambda x, y, s: ["slice", x, y, s], a, b, st.integers(1, 2)),
-        st.builds(lambda x, s: ["slice", x, None, s], st.integers(0, 4), st.integers(1, 3)),
+        st.builds(lambda x, y: ["slice", x, y, 1], a, b),
+        st.builds(lambda x: ["slice", x, None], st.integers(0, 4)),
     )
 
 
@@ -370,7 +374,7 @@ def infinite_case(draw):
     if draw(st.booleans()):
         bs = draw(st.lists(st.lists(inf_simple, min_size=1, max_size=2), min_size=1, max_size=2))
         els = [["split", bs, draw(st.integers(1, 4))]] + els[:3]
-    stop = draw(st.integers(0, 5))
+    stop = draw(st.sampled_from([3, 1, 2, 0, 4, 5, 1, 2, 3, 4, 5, 6]))
     pos = draw(st.integers(0, len(els)))
     if els and els[0][0] == "split":
         pos = max(pos, 1)
@@ -387,9 +391,9 @@ def judge_infinite(case):
     with contextlib.redirect_stdout(io.StringIO()):
         log = []
         src = Src(None, log, infinite=True)
-        it = _run(case, src, log)
-        check_idle(log, src, "run()", case)
         try:
+            it = _run(case, src, log)
+            check_idle(log, src, "run()", case)
             got = [plain(r) for r in it]
         except PullCap:
             raise Violation("does-not-terminate-on-infinite-source",
@@ -397,6 +401,9 @@ def judge_infinite(case):
         total_pulls = src.pulls
         if total_pulls > N - 10:
             return {"nontrivial": False, "classes": ["too-sparse"]}
+        # a finite prefix comfortably longer than what was pulled
+        N = total_pulls + 10
+        xs = list(range(N))
         if has_split:
             b = els[0][2]
             points = list(range(0, N + 1, b))
@@ -499,9 +506,9 @@ def judge_negslice(case):
 @st.composite
 def split_case(draw):
     bs = draw(st.lists(branch, min_size=1, max_size=3))
-    return {"branches": bs, "bufsize": draw(st.integers(1, 5)), "n": draw(st.integers(0, 17)),
+    return {"branches": bs, "bufsize": draw(st.integers(1, 5)), "n": draw(st.sampled_from(list(range(7, 18)) * 2 + list(range(3, 7)) * 2 + [2, 1, 0])),
             "copy_buf": draw(st.booleans()), "post": draw(st.lists(st.builds(lambda f: ["map", f], st.sampled_from(["id", "wrap"])), max_size=1)),
-            "stop_after": draw(st.integers(0, 40))}
+            "stop_after": draw(st.sampled_from([99, 99, 99, 5, 1, 2, 3, 0, 8, 13, 21]))}
 
 
 def branch_ref(b, i):
@@ -598,17 +605,17 @@ def judge_split(case):
 
 
 CHECKS = [
-    Check("pipeline", judge_pipeline, strategy=lambda tier: pipeline_case(), quick=700, thorough=20000,
+    Check("pipeline", judge_pipeline, strategy=lambda tier: pipeline_case(), quick=1600, thorough=30000,
           rule="1-5 streaming elements (maps incl. in-place context mutators, Variable, Filter, Slice with every sign pattern and step, Count, RunIf, Print, Context, "
                "UpdateContext, MakeFilename; optionally a Split of 1:1 / filtering branches first) over 0..20 values, as Sequence.run or Source; consumer takes k results then "
-               "closes. Zero events after construction and after run(); after each result pulls <= need(k) (10 continuations covering every predicate class; block-aligned for Split). "
+               "closes. Zero events after construction and after run(); after each result pulls <= need(k) (computed element by element with five continuations; block-aligned for Split). "
                "Non-trivial = >=2 elements incl. Slice/Count/Filter/RunIf/Split and >=1 result taken."),
-    Check("infinite", judge_infinite, strategy=lambda tier: infinite_case(), quick=300, thorough=8000,
+    Check("infinite", judge_infinite, strategy=lambda tier: infinite_case(), quick=800, thorough=16000,
           rule="pipelines with a non-negative-stop Slice (any position) over an infinite source with a pull cap of %d: must terminate with the results of a 96-value prefix and pulls <= need(k) at every k." % CAP),
-    Check("negative_slice", judge_negslice, strategy=lambda tier: negslice_case(), quick=400, thorough=10000,
+    Check("negative_slice", judge_negslice, strategy=lambda tier: negslice_case(), quick=800, thorough=16000,
           rule="Slice with negative start and/or stop (five sign forms, steps 1-3, |index| <= 6) over flows at least 15 longer than |index|: results == list slicing, "
                "exact lag start + (k-1)*step + 1 + |stop| for negative stops, live input values (weak references) <= |index| + 3 at every result."),
-    Check("split_trace", judge_split, strategy=lambda tier: split_case(), quick=600, thorough=15000,
+    Check("split_trace", judge_split, strategy=lambda tier: split_case(), quick=1000, thorough=20000,
           rule="Split of 1-3 per-value branches, bufsize 1..5, flows 0..17, both copy_buf settings, consumer stopping anywhere: the interleaved pull/result trace equals "
                "'pull one block, all results of all branches for it, next block'; live input values <= bufsize + 2."),
 ]
